@@ -143,6 +143,22 @@ def seq_roots(tier):
                                                 callback={"sig": "ir", "behav": "passive"})
                             c["args"] = [1.5, "tag"]
                             out.append(c)
+        # undefined entries that the solver neutralises internally (NaN bounds / coefficients / limits): the
+        # clean-up must happen on private copies
+        for bform in ["Bounds", "array"]:
+            for cons in ["none", "lin_two", "ball_two"]:
+                c = alpha.base_case(n, ("wide",) * n, "in", "quad", cons, bform=bform,
+                                    options={"maxfev": 30}, callback={"sig": "xk", "behav": "passive"})
+                c["bounds"]["lb"][0] = alpha.NAN
+                c["bounds"]["ub"][-1] = alpha.NAN
+                for con in c["cons"]:
+                    if con["kind"] == "lin":
+                        con["A"][0][0] = alpha.NAN
+                        con["lb"] = [alpha.NAN]
+                    else:
+                        con["ub"] = [alpha.NAN]
+                c["tag"]["special"] = "nan-entries"
+                out.append(c)
     return out
 
 
